@@ -24,6 +24,10 @@ CORPUS = [
     # same executor: resubmission after completion (pause between the two submissions)
     {"workers": 1, "resolver": True, "block": False, "delay": 0.0, "seed": 6, "perturb": {},
      "sessions": [[{"fn": 2, "arg": 3, "kw": 2, "pause": 400}, {"fn": 2, "arg": 3, "kw": 2}]], "timeout": 60, "_processes": 1},
+    # resubmission immediately after result() on a two-worker executor, slow persistence operations
+    {"workers": 2, "resolver": False, "block": True, "delay": 1.0, "seed": 7, "perturb": {},
+     "sessions": [[{"fn": 1, "arg": 5, "kw": None, "wait": True}, {"fn": 1, "arg": 5, "kw": None, "wait": True}, {"fn": 1, "arg": 5, "kw": None}]],
+     "timeout": 60, "_processes": 1},
 ]
 
 
@@ -50,7 +54,7 @@ def body(ctx: Ctx):
         ctx.count("calls", ncalls)
         ctx.count("executions", j["info"].get("executions", 0))
         hits += ncalls - j["info"].get("executions", 0)
-        rel = [x for x in j["oracles"] if x["oracle"] in ("cache_entry_removed", "cache_entry_altered", "cache_execution_count",
+        rel = [x for x in j["oracles"] if x["oracle"] in ("cache_entry_removed", "cache_entry_altered", "cache_execution_count", "cache_reexecution_after_completion",
                                                           "cache_key_unstable", "cache_wrong_value", "cache_call_failed", "cache_hang")]
         if rel:
             fails.append((s, j, rel))
